@@ -993,17 +993,19 @@ class SupportGenerator(CodeGenerator):
         target: pathlib.Path,
         line_pps: typing.List["nunavut._postprocessors.LinePostProcessor"],
     ) -> None:
-        with open(str(target), "w", encoding="utf-8") as target_file:
-            with open(str(resource), "r", encoding="utf-8") as resource_file:
-                for resource_line in resource_file:
-                    if len(resource_line) > 1 and resource_line[-2] == "\r":
-                        resource_line_tuple = (resource_line[0:-2], "\r\n")
-                    else:
-                        resource_line_tuple = (resource_line[0:-1], "\n")
-                    for line_pp in line_pps:
-                        resource_line_tuple = line_pp(resource_line_tuple)
-                    target_file.write(resource_line_tuple[0])
-                    target_file.write(resource_line_tuple[1])
+        # newline="" disables newline translation so the line endings of the resource are preserved and
+        # a last line without a terminator is not truncated.
+        with open(str(target), "w", encoding="utf-8", newline="") as target_file:
+            with open(str(resource), "r", encoding="utf-8", newline="") as resource_file:
+
+                def _read_parts() -> typing.Generator[str, None, None]:
+                    while True:
+                        part = resource_file.read(io.DEFAULT_BUFFER_SIZE)
+                        if len(part) == 0:
+                            return
+                        yield part
+
+                self._generate_with_line_buffer(target_file, _read_parts(), line_pps)
 
 
 # +---------------------------------------------------------------------------+
